@@ -311,7 +311,7 @@ func numscriptSpaceInto(thorough bool, out *menus) spaceDesc {
 			{"E7: 1 send, every depth-2 source of the quick menus x reduced depth<=1 destinations x amounts {1,7,*}", yieldProduct(cat, []gen.Amount{{Mon: coin(1)}, {Mon: coin(7)}, {All: true, Asset: assetMain}}, concatSrc(q.S2, q.SA2), concatDst(DR, D1R))},
 		}
 	}
-	rule = fmt.Sprintf("grammar enumeration (no sampling) of NumScript.g4 programs: leaf sources = {@a,@b,$acc} x {plain, overdraft up to %v, unbounded} + @world (%d); depth-1 = max M from leaf (M in %v) and in-order {leaf leaf} (%d); depth-2 over a reduced leaf menu of %d (%d sources); source allotments (%d flat, %d nested); destinations: %d leaves (+kept), %d in-order, %d allotments, %d depth-2; portions %v; amounts {0,1,7,100,*} plus variable amounts; statement menu of %d (sends, save, set_tx_meta, set_account_meta, fail; second asset USD/2) and all its ordered pairs; every program x every assignment of its variables from the catalog menus (acc=%v mon=%v p=%v, meta(@m,..), balance(@a,COIN)) x every balance vector over {-3,0,1,5,100} for each account in source/save/balance() position",
+	rule = fmt.Sprintf("grammar enumeration (no sampling) of NumScript.g4 programs: leaf sources = {@a,@b,$acc} x {plain, overdraft up to %v, unbounded} + @world (%d); depth-1 = max M from leaf (M in %v) and in-order {leaf leaf} (%d); depth-2 over a reduced leaf menu of %d (%d sources); source allotments (%d flat, %d nested); destinations: %d leaves (+kept), %d in-order, %d allotments, %d depth-2; portions %v; amounts {0,1,7,100,*} plus variable amounts; statement menu of %d (sends, save, set_tx_meta, set_account_meta, fail; second asset USD/2) and all its ordered pairs; every program x every assignment of its variables from the catalog menus (acc=%v mon=%v p=%v, meta(@m,..), balance(@a,COIN)) x every balance vector over {-3,-1,0,1,5,100} for each account in source/save/balance() position",
 		bounds, len(L), maxes, len(S1), len(R), len(S2), len(SA1), len(SA2), len(DL), len(D1seq), len(D1all), len(D2), porMenuFull, len(T),
 		cat["acc"].Values, cat["mon"].Values, cat["p"].Values)
 	return spaceDesc{Stages: st, Rule: rule}
